@@ -1127,6 +1127,9 @@ class SpectrumResult:
 
     def __getattr__(self, name: str) -> Any:
         """Lazy computation and caching of spectral properties."""
+        # copy/pickle look attributes up on an instance whose __dict__ is still empty
+        if name in ("_cache", "_data") or (name.startswith("__") and name.endswith("__")):
+            raise AttributeError(name)
         if name in self._cache:
             return self._cache[name]
 
